@@ -94,6 +94,11 @@ def stress_histories():
 
 
 DEPENDENT_GROUPS = [
+    ["expr.shared.simplify(retarget,targets=ajk)", "expr.shared.simplify(retarget,targets=none)",
+     "expr.shared.symmetry(retarget,targets=a)", "expr.shared.simplify(retarget,targets=einstein)"],
+    ["expr.shared.symmetry(retarget,targets=jk)", "expr.shared.symmetry(retarget,targets=none)",
+     "expr.shared.substitute_contracted(retarget,targets=a)",
+     "expr.shared.symmetry(retarget,targets=einstein)"],
     ["m.mp.ip.precursor_matrix_block(2,h,h,i,j)", "m.mp.ip.isr_matrix_block(2,h,h,i,j)",
      "m.mp.ip.mvp_block_order(1,h,h,h,i)"],
     ["m.mp.ea.isr_matrix_block(2,p,p,a,b)", "m.mp.ea.precursor_matrix_block(2,p,p,a,b)"],
@@ -135,6 +140,14 @@ REJECTED_THEN_USE = [
     ("bad.gs.amplitude(1,pphh,k4l4c4)", ["gs.mp.psi(2,bra)", "gs.mp.psi(2,ket)",
                                          "gs.mp.psi(2,ket)"]),
 ]
+
+PANEL = ["m.mp.pp.isr_matrix_block(1,ph,ph,ia,jb)", "m.mp.ip.isr_matrix_block(1,h,h,i,j)",
+         "gs.mp.energy(2)", "isr.mp.ea.precursor(1,p,ket,a)", "prop.mp.pp.trans_moment(1)",
+         "gs.re.energy(1)", "expr.factor_intermediates(t2_1x,t2_1)",
+         "gs.mp.expectation_value(1,1)", "isr.mp.pp.overlap_precursor(1,ph,ph,ia,jb)",
+         "m.mp.ea.mvp_block_order(1,p,p,p,a)", "itmd.t1_2.expand_itmd(jb,once)",
+         "expr.simplify(alpha3)", "code.generate_code(contr2,einsum)",
+         "gs.mps.amplitude(1,ph,ia)", "expr.spatial(spin1,restricted)"]
 
 ABORT_SWEEP = [
     ("gs.mp.energy(2)", ["gs.mp.amplitude(2,ph,ia)", "gs.mp.expectation_value(2,1)"]),
@@ -302,6 +315,19 @@ def run(tier, seed):
                                  "run": f"twins-{x}-{fx}-{y}-{fy}", "env": pool[0],
                                  "params": DEFAULT_PARAMS, "steps": steps,
                                  "ref": ref_for(ref, steps), "timeout": 900})
+    # the transpose of "every template after fixed histories": every template as the history
+    # of a fixed panel of core requests (a request that leaves something behind in
+    # process-level state - a memo table, a mutated default - shows up in the panel)
+    panel = [t for t in PANEL if t in ref]
+    if not thorough:
+        panel = panel[:7]
+    for n, tid in enumerate(tids):
+        if cat.BY_ID[tid]["cost"] > (8 if thorough else 3):
+            continue
+        steps = [{"op": "req", "t": tid}] + [{"op": "req", "t": t} for t in panel if t != tid]
+        jobs.append({"kind": "c19", "seed": seed, "run": f"panel-{tid}", "env": pool[0],
+                     "params": dict(DEFAULT_PARAMS, shared=bool(n % 2)),
+                     "steps": steps, "ref": ref_for(ref, steps), "timeout": 900})
     # one calculation after another in a long session: every derivation object is thrown away
     # (garbage collected) between the blocks, the next block builds new objects - of another
     # Hamiltonian / variant - possibly at the same addresses
